@@ -235,6 +235,9 @@ func checkC11(c *Ctx) {
 	} else {
 		c.missing("O1 own-tags", "tally.mergeRightTags / scope.copyAndSanitizeMap")
 	}
+	// "for a test scope and every scope derived from it": a derived scope is configured like its parent
+	// (shared with C04 O2, including the agreement between the root constructor and the child constructor)
+	c.shared(checkC04, map[string]string{"O2 inheritance": "O1 derived-like-parent"})
 
 	// ---- O3 locks ---------------------------------------------------------------------------------
 	eng := c.newLockEngine()
